@@ -1,6 +1,7 @@
 import Mathlib.Tactic.Ring
 import QV.Proofs.Hadamard
 import QV.Model.Algo
+import QV.Proofs.Types
 /-!
 # Helper lemmas for C16: classical gates as involutions, the prepared states, the oracle step
 -/
@@ -443,5 +444,38 @@ theorem simon_amp_nonimage (gs : List AGate) (n m : Nat) (F : List Bool → List
     have : ¬ z = F x := fun e => hni x hx e.symm
     simp [this])]
   exact sumBits_zero n
+
+/-! ## decoding -/
+
+theorem any_id_false_iff : ∀ (y : List Bool), y.any id = false ↔ y = zeros y.length
+  | [] => by simp [zeros]
+  | b :: y => by
+    have := any_id_false_iff y
+    simp only [zeros] at this
+    cases b
+    · simp only [List.any_cons, id, Bool.false_or, this, zeros, List.length_cons,
+        List.replicate_succ, List.cons.injEq, true_and]
+    · simp [zeros, List.replicate_succ]
+
+theorem valLE_eq_zero_iff (y : List Bool) : valLE y = 0 ↔ y = zeros y.length := by
+  constructor
+  · intro h
+    apply valLE_inj (by simp [zeros])
+    rw [h, zeros, valLE_replicate_false]
+  · intro h; rw [h, zeros, valLE_replicate_false]
+
+open QV.Types in
+theorem pyEqZero_qint (w : Nat) (y : List Bool) (hy : y.length = w) (hw : 0 < w) :
+    pyEqZero (interpret (.qint w) y) = some (decide (y = zeros w)) := by
+  have hne : y ≠ [] := by intro e; subst e; simp at hy; omega
+  have hlt : valLE y < 2 ^ w := hy ▸ valLE_lt y
+  simp only [interpret, qintFromBool_eq hne, optVal, pyEqZero, Nat.mod_eq_of_lt hlt]
+  have := valLE_eq_zero_iff y
+  rw [hy] at this
+  by_cases h : valLE y = 0
+  · have h' := this.mp h
+    rw [h]; simp [h']
+  · have h' : ¬ y = zeros w := fun e => h (this.mpr e)
+    simp [h, h']
 
 end QV.Amp
